@@ -165,10 +165,12 @@ class C08(Prop):
                 b = fil.read_block(s, n)
                 if C % case["ff"]:
                     return {"skip": True}
+                res["mid"] = self._hdr(b.header)
                 b2 = b.downsample(ffactor=case["ff"], tfactor=case["tf"])
                 res["out"] = dict(self._hdr(b2.header), shape=list(b2.data.shape))
             elif api == "blk_dedisp":
                 b = fil.read_block(s, n)
+                res["mid"] = self._hdr(b.header)
                 b2 = b.dedisperse(case["dm"])
                 res["out"] = dict(self._hdr(b2.header), shape=list(b2.data.shape), blockdm=float(b2.dm))
             elif api == "blk_tim":
@@ -176,7 +178,9 @@ class C08(Prop):
                 ts = b.get_tim()
                 res["out"] = dict(self._hdr(ts.header), shape=[1, len(ts.data)])
             elif api == "ts_down":
-                ts = fil.collapse(**kw).downsample(case["tf"])
+                ts0 = fil.collapse(**kw)
+                res["mid"] = self._hdr(ts0.header)
+                ts = ts0.downsample(case["tf"])
                 res["out"] = dict(self._hdr(ts.header), shape=[1, len(ts.data)])
         except Exception as e:  # noqa: BLE001
             import traceback
@@ -263,6 +267,98 @@ class C08(Prop):
                     if not (lo - 1e-9 * (1 + abs(lo)) <= fo(i) <= hi + 1e-9 * (1 + abs(hi))):
                         bad.append(f"label of sub-band {i} ({fo(i)!r}) outside the span [{lo!r}, {hi!r}] of its inputs")
         return "; ".join(f"{api}: {b}" for b in bad[:3]) or None
+
+    # ------------------------------------------------------------------ model (generated header updates)
+    @staticmethod
+    def _q(x):
+        from fractions import Fraction
+        f = Fraction(x)
+        return f"{f.numerator}/{f.denominator}"
+
+    def _sites(self, case, obs):
+        """[(site, input header dict, params, output header dict, fields to compare)]"""
+        api, s, n, C = case["api"], case["s"], case["n"], case["C"]
+        hin = obs["in"]
+        out = obs.get("out")
+        common_f = ["fch1", "foff", "tsamp", "tstart", "nchans", "nbits"]
+        if api == "read_block":
+            return [("FilReader_read_block", hin, {"p_data_size": n * C, "p_fch1": hin["fch1"], "p_nchans": C, "p_start": s},
+                     out, common_f + ["nsamples"])]
+        if api == "read_block_f":
+            f = hin["fch1"] + case["j"] * hin["foff"]
+            return [("FilReader_read_block", hin, {"p_data_size": n * C, "p_fch1": f, "p_nchans": case["k"], "p_start": s},
+                     out, common_f + ["nsamples"])]
+        if api == "read_dedisp":
+            return [("FilReader_read_dedisp_block", hin, {"p_nsamps": n, "p_start": s}, out, common_f + ["nsamples"])]
+        if api == "collapse":
+            return [("Filterbank_collapse", hin, {"p_start": s, "p_tim_len": n}, out, common_f + ["nsamples", "dm"])]
+        if api == "read_chan":
+            return [("Filterbank_read_chan", hin, {"p_start": s, "p_tim_len": n}, out, common_f + ["nsamples", "dm"])]
+        if api == "dedisperse":
+            md = n - out["nsamples"]
+            return [("Filterbank_dedisperse", hin, {"p_dm": case["dm"], "p_max_delay": md, "p_nsamps_read": n, "p_start": s},
+                     out, common_f + ["nsamples", "dm"])]
+        if api == "invert":
+            return [("Filterbank_invert_freq", hin, {"p_start": s}, out, common_f)]
+        if api == "mask":
+            return [("Filterbank_apply_channel_mask", hin, {"p_start": s}, out, common_f)]
+        if api == "samps":
+            return [("Filterbank_extract_samps", hin, {"p_start": s}, out, common_f)]
+        if api == "zerodm":
+            return [("Filterbank_remove_zerodm", hin, {"p_start": s}, out, common_f)]
+        if api == "chans":
+            return [("Filterbank_extract_chans", hin, {"p_chan": c, "p_start": s}, o, common_f)
+                    for c, o in zip(case["chans"], obs["outs"])]
+        if api == "bands":
+            return [("Filterbank_extract_bands", hin, {"p_batch_start": 0, "p_chanpersub": case["per"],
+                                                      "p_chanstart": case["chanstart"], "p_i": i, "p_start": s}, o, common_f)
+                    for i, o in enumerate(obs["outs"])]
+        if api == "downsample":
+            return [("Filterbank_downsample", hin, {"p_ffactor": case["ff"], "p_start": s, "p_tfactor": case["tf"]}, out, common_f)]
+        if api == "subband":
+            return [("Filterbank_subband", hin, {"p_dm": case["dm"], "p_nsub": case["nsub"], "p_start": s}, out, common_f + ["dm"])]
+        if api == "blk_down":
+            return [("FilterbankBlock_downsample", obs["mid"], {"p_ffactor": case["ff"], "p_tfactor": case["tf"]}, out,
+                     common_f + ["nsamples"])]
+        if api == "blk_dedisp":
+            return [("FilterbankBlock_dedisperse", obs["mid"], {"p_new_ar_shape_1_": out["shape"][1]}, out, common_f + ["nsamples"])]
+        if api == "ts_down":
+            return [("TimeSeries_downsample", obs["mid"], {"p_factor": case["tf"], "p_len_tim_data": out["nsamples"]}, out,
+                     common_f + ["nsamples"])]
+        return []
+
+    def model_requests(self, case, obs):
+        if obs.get("skip") or "err" in obs:
+            return []
+        reqs = []
+        for site, h, ps, _, _ in self._sites(case, obs):
+            hd = " ".join(self._q(h[k]) for k in ("fch1", "foff", "tsamp", "tstart", "dm", "nchans", "nsamples", "nbits"))
+            pp = " ".join(f"{k} {self._q(v)}" for k, v in ps.items())
+            reqs.append(f"C08 site {site} {hd} {pp}")
+        return reqs + ["C08 dropped"]
+
+    def model_compare(self, case, obs, answers):
+        from fractions import Fraction
+        if not answers:
+            return None
+        sites = self._sites(case, obs)
+        for (site, h, ps, o, fields), a in zip(sites, answers):
+            t = a.split()
+            if t[0] != "ok":
+                return f"{site}: model {a}"
+            m = dict(zip(("fch1", "foff", "tsamp", "tstart", "dm", "nchans", "nsamples", "nbits"), (Fraction(x) for x in t[1:])))
+            for k in fields:
+                got, want = o[k], float(m[k])
+                if k == "tstart":
+                    ok = abs(got - want) * 86400 <= 5e-6
+                else:
+                    ok = abs(got - want) <= 1e-9 * (1 + abs(want))
+                if not ok:
+                    return f"{site}: header {k} = {got!r}, generated update gives {want!r}"
+        dropped = [x for x in answers[-1].split()[1:] if not x.endswith(":0")]
+        if dropped:
+            return f"update keys silently dropped by new_header: {dropped}"
+        return None
 
     def regime(self, case, obs):
         return case["api"]
